@@ -159,6 +159,8 @@ type c22Backend struct {
 	hook mqtt.Hook
 	log  *bytes.Buffer
 	cls  []*mqtt.Client
+	// stopErr is what the last Stop() before a reopen returned
+	stopErr error
 }
 
 var c22Srv = mqtt.New(&mqtt.Options{Logger: slog.New(slog.NewTextHandler(io.Discard, nil))})
@@ -387,9 +389,9 @@ func (b *c22Backend) apply(ev c22Ev) error {
 			cl.Properties.Props.SessionExpiryIntervalFlag = true
 		}
 	case "reopen":
-		if err := b.close(); err != nil {
-			return fmt.Errorf("%s: stop: %w", b.name, err)
-		}
+		// what Stop() returns is outside the statement (pebble's reports the iterators its Stored*() never close);
+		// it is recorded, not judged. A store that cannot be opened again is judged by the caller.
+		b.stopErr = b.close()
 		return b.open()
 	default:
 		return fmt.Errorf("unknown event kind %q", ev.K)
@@ -555,11 +557,11 @@ func c22Short(s string) string {
 	return s
 }
 
-const c22LongKey = 30000 // identities longer than this belong to the long-key class (own signature suffix)
+const c22LongKey = 30000 // identities longer than this belong to the long-key class (own signature)
 
 // c22Compare compares the four snapshots and returns the disagreements that were not present before (seen), each
-// attributed to the event kind after which it first appeared.
-func c22Compare(snaps []c22Snap, errs []map[string]string, evKind string, evIdx int, seen map[string]bool) []evid.Disc {
+// attributed to the event kind after which it first appeared. bigValue: the event carried a multi-megabyte payload.
+func c22Compare(snaps []c22Snap, errs []map[string]string, evKind string, evIdx int, bigValue bool, seen map[string]bool) []evid.Disc {
 	var ds []evid.Disc
 	report := func(cat, id, path string, vals []string) {
 		desc, eq := c22Partition(vals)
@@ -572,8 +574,12 @@ func c22Compare(snaps []c22Snap, errs []map[string]string, evKind string, evIdx 
 		}
 		seen[key] = true
 		sig := fmt.Sprintf("C22-%s-on-%s-%s-%s", desc, evKind, cat, path)
-		if len(id) > c22LongKey {
-			sig += "-longkey"
+		switch {
+		case path == "presence" && len(id) > c22LongKey:
+			// one mechanism whatever the record type: the backend's engine refuses keys beyond its own limit
+			sig = fmt.Sprintf("C22-%s-long-key-not-stored", desc)
+		case path == "presence" && bigValue:
+			sig = fmt.Sprintf("C22-%s-big-value-not-stored", desc)
 		}
 		show := []string{}
 		for i, v := range vals {
@@ -609,8 +615,9 @@ func c22Compare(snaps []c22Snap, errs []map[string]string, evKind string, evIdx 
 					all = false
 				}
 			}
-			if cat == "client" {
-				// one signature per client record: which field differs depends only on what the connection looked like
+			if cat == "client" && (all || len(id) <= c22LongKey) {
+				// one signature per client record: which field differs (or whether the record exists at all) depends
+				// only on what the connection object looked like when the deviating write or non-write happened
 				whole := make([]string, len(snaps))
 				for i, s := range snaps {
 					if f := s[cat][id]; f != nil {
@@ -651,6 +658,8 @@ func c22Compare(snaps []c22Snap, errs []map[string]string, evKind string, evIdx 
 }
 
 // ---- the check -----------------------------------------------------------------------------------------
+
+const c22BigValue = 4 << 20 // payloads from here on belong to the big-value class (own signature)
 
 var c22Budget = 60 * time.Second // per case; hitting it is inconclusive, never a violation
 
@@ -699,9 +708,14 @@ func c22Check(c c22Case, r *evid.Rec) []evid.Disc {
 			if b.log.Len() > 0 {
 				applyLogs = append(applyLogs, b.name+" logged: "+c22Short(strings.TrimSpace(b.log.String())))
 			}
+			if b.stopErr != nil {
+				r.Label("stop-returned-error:" + b.name)
+				r.Set("stop_error_"+b.name, c22Short(b.stopErr.Error()))
+				b.stopErr = nil
+			}
 			if err != nil {
 				if ev.K == "reopen" {
-					// a store that cannot be reopened is a disagreement of its own
+					// a store that cannot be opened again cannot be read back at all
 					ds = append(ds, evid.D("C22-"+b.name+"-reopen-fails", "event #%d: %v", i, err))
 					return ds
 				}
@@ -795,7 +809,7 @@ func c22Check(c c22Case, r *evid.Rec) []evid.Disc {
 		for j, b := range env.bs {
 			snaps[j], errs[j] = b.snapshot()
 		}
-		for _, d := range c22Compare(snaps, errs, ev.K, i, seen) {
+		for _, d := range c22Compare(snaps, errs, ev.K, i, ev.Msg != nil && ev.Msg.PayPad >= c22BigValue, seen) {
 			if !sigSeen[d.Sig] {
 				sigSeen[d.Sig] = true
 				if len(applyLogs) > 0 {
@@ -896,7 +910,7 @@ func c22GenMsg(rt *rapid.T, topic kstr, pid uint16, big bool) *c22Msg {
 		m.NilPayload = rapid.Bool().Draw(rt, "nilpayload")
 	}
 	if big && rapid.IntRange(0, 3).Draw(rt, "bigp") == 0 {
-		m.PayPad = rapid.SampledFrom([]int{70000, 1 << 20, 1<<20 + 4096}).Draw(rt, "paypad")
+		m.PayPad = rapid.SampledFrom([]int{70000, 1 << 20, 1<<20 + 4096, 8 << 20}).Draw(rt, "paypad")
 	}
 	m.Qos = byte(rapid.IntRange(0, 2).Draw(rt, "qos"))
 	m.Retain = rapid.Bool().Draw(rt, "retainflag")
@@ -934,12 +948,19 @@ func c22Gen(rt *rapid.T) c22Case {
 		c.Conns = append(c.Conns, cn)
 	}
 	maxEv := 40
-	if long || big {
+	if big {
+		maxEv = 8
+	} else if long {
 		maxEv = 12 // every comparison re-reads everything; keep the heavy classes short
 	}
 	n := rapid.IntRange(1, maxEv).Draw(rt, "nevents")
 	kinds := []string{"est", "est", "disc", "disc", "sub", "sub", "unsub", "retain", "retain", "retain", "qpub", "qpub", "qpub", "qcomp", "qdrop",
 		"cexp", "rexp", "will", "sys", "mut", "mut"}
+	if long {
+		// the long-key class asks one question (is a record under a 32 KiB / 64 KiB key stored, overwritten and removed
+		// alike); events whose known disagreements would mix with the answer are left to the ordinary classes
+		kinds = []string{"est", "sub", "sub", "unsub", "retain", "retain", "rexp", "qpub", "qpub", "qcomp", "qdrop", "cexp", "sys"}
+	}
 	if reopen {
 		kinds = append(kinds, "reopen")
 	}
